@@ -32,6 +32,15 @@ import numpy as np
 ELEMS = {"f32": (np.float32, 1), "u8": (np.uint8, 2), "i8": (np.int8, 3), "u16": (np.uint16, 4), "i16": (np.int16, 5),
          "i32": (np.int32, 6), "i64": (np.int64, 7), "bool": (np.bool_, 9), "f16": (np.float16, 10),
          "f64": (np.float64, 11), "u32": (np.uint32, 12), "u64": (np.uint64, 13)}
+try:  # element types without a numpy-native dtype / without Cast support in every runtime
+    import ml_dtypes as _mld
+
+    ELEMS["bf16"] = (_mld.bfloat16, 16)
+except Exception:  # noqa: BLE001 - not installed: one element type fewer
+    pass
+ELEMS["str"] = (np.str_, 8)
+ELEMS["c64"] = (np.complex64, 14)
+SIZE_LIFT = {"str", "bf16", "c64"}   # arguments of these types enter a program through Size (element count), not Cast
 SYM = {"N": 2, "M": 3, "K": 1}
 SCALAR = {"e": "f32", "d": []}
 
@@ -93,13 +102,14 @@ def proto_ty_str(tp) -> str:
     return f"{tt.elem_type}:[" + ",".join(dims) + "]"
 
 
-def gen_type(rng: random.Random, tensor_only=False):
+def gen_type(rng: random.Random, tensor_only=False, basic=False):
+    """`basic`: only element types every sequence / optional operator of opset 17 accepts."""
     r = rng.random()
     if not tensor_only and r < 0.10:
-        return {"seq": gen_type(rng, True)}
+        return {"seq": gen_type(rng, True, True)}
     if not tensor_only and r < 0.17:
-        return {"opt": gen_type(rng, True) if rng.random() < 0.7 else {"seq": gen_type(rng, True)}}
-    e = rng.choice(list(ELEMS))
+        return {"opt": gen_type(rng, True, True) if rng.random() < 0.7 else {"seq": gen_type(rng, True, True)}}
+    e = rng.choice([x for x in ELEMS if not (basic and x in SIZE_LIFT)])
     rank = rng.choice([0, 1, 1, 2, 2, 3])
     return {"e": e, "d": [rng.choice([0, 1, 1, 2, 3, "N", "M", "K", None, None]) for _ in range(rank)]}
 
@@ -112,6 +122,8 @@ def feed_for(ty, rng: random.Random):
     shape = [SYM[d] if isinstance(d, str) else (2 if d is None else d) for d in ty["d"]]
     dt = ELEMS[ty["e"]][0]
     n = int(np.prod(shape)) if shape else 1
+    if ty["e"] == "str":
+        return np.array([str(rng.randrange(0, 4)) for _ in range(n)], dtype=np.str_).reshape(shape)
     if ty["e"] == "bool":
         vals = [rng.random() < 0.5 for _ in range(n)]
     elif ty["e"] in ("u8", "u16", "u32", "u64"):
@@ -175,9 +187,9 @@ class _Gen:
                 r = 0.59  # a rewritable node (ReduceMax with an axes attribute) inside a body, fairly often
             if pending and rng.random() < 0.7:
                 nd = self.new({"k": "lift", "a": pending.pop()})
-            elif r < 0.05 and depth == 0 and [i for i in vis_any if self.info[i]["k"] == "arg" and "e" in self.info[i]["ty"]]:
+            elif r < 0.05 and depth == 0 and [i for i in vis_any if self.info[i]["k"] == "arg" and self.info[i]["ty"].get("e", "str") not in SIZE_LIFT]:
                 # a non-scalar value: Cast(argument) keeps the argument's dims (constant, zero, symbolic, unknown)
-                nd = self.new({"k": "tcast", "a": rng.choice([i for i in vis_any if self.info[i]["k"] == "arg" and "e" in self.info[i]["ty"]])})
+                nd = self.new({"k": "tcast", "a": rng.choice([i for i in vis_any if self.info[i]["k"] == "arg" and self.info[i]["ty"].get("e", "str") not in SIZE_LIFT])})
                 nodes.append(nd)
                 vis_any.append(nd["id"])
                 continue
@@ -270,7 +282,7 @@ def gen_program(rng: random.Random, n_args=None, size=None, max_depth=3, domains
     """A random program. Arguments are created first, interleaved with a few other top-level values.
     `domains`: also use operators of custom domains (such programs cannot be run by a runtime)."""
     g = _Gen(rng, max_depth, domains)
-    n_args = (rng.randrange(1, 7) if rng.random() < 0.9 else rng.randrange(7, 11)) if n_args is None else n_args
+    n_args = (rng.randrange(1, 7) if rng.random() < 0.9 else rng.randrange(7, 14)) if n_args is None else n_args
     size = rng.randrange(1, 9) if size is None else size
     top = []
     for _ in range(n_args):
@@ -503,6 +515,8 @@ def lift_var(op, v):
         return op.cast(op.sequence_length(v), to=np.float32)
     if isinstance(t, spox.Optional):
         return op.cast(op.optional_has_element(v), to=np.float32)
+    if any(t.dtype == np.dtype(ELEMS[e][0]) for e in SIZE_LIFT if e in ELEMS):
+        return op.cast(op.size(v), to=np.float32)   # strings, bfloat16, complex: the number of elements
     return op.reduce_sum(op.cast(v, to=np.float32), keepdims=0)
 
 
@@ -624,6 +638,8 @@ def evaluate(prog, feeds, out_ids):
                 v = np.float32(len(x))
             elif "opt" in ta:
                 v = np.float32(0.0 if x is None else 1.0)
+            elif ta.get("e") in SIZE_LIFT:
+                v = np.float32(np.asarray(x).size)
             else:
                 v = np.float32(np.asarray(x).astype(np.float32).sum())
         elif k == "tcast":
@@ -759,6 +775,11 @@ def _gen_request(rng: random.Random, prog, *, allow_bad=True, allow_dup=False):
             if a not in used and rng.random() < 0.5:
                 listed.remove(a)
         kind = "subset"
+    if rng.random() < 0.04:
+        # an empty `outputs` dictionary — alone (ValueError; the property is silent) or together with a bad
+        # input (the statement still demands TypeError: the order of build's checks is observable)
+        outs = []
+        kind += "+no-outputs"
     rng.shuffle(listed)
     names = [f"x{j}" for j in range(len(listed) + 2)] + ["in_a", "data", "Z", "arg"]
     rng.shuffle(names)
